@@ -133,6 +133,8 @@ mutual
     /-- `CASE sel OF groups [ELSE els] END_CASE` -/
     | caseS (kCase kOf : Item) (sel : S) (groups : Groups) (kEnd : Item)
     | caseElse (kCase kOf : Item) (sel : S) (groups : Groups) (kElse : Item) (els : Stl) (kEnd : Item)
+    /-- `name(n1 := e1 {, n := e})`: a function block invocation with named inputs -/
+    | callS (name lp n1 a1 : Item) (e1 : S) (more : List (Item × Item × Item × S)) (rp : Item)
     | exitS (k : Item)
     | returnS (k : Item)
   /-- statements, each followed by its semicolon -/
@@ -153,6 +155,12 @@ end
 def selToks (more : List (Item × Item × Nat)) : List Item := more.flatMap fun m => [m.1, m.2.1]
 /-- the tree of an unsigned integer selector -/
 def selSx (v : Nat) : Sx := .t "SignedInteger" [sxSigned v false]
+/-- the tokens `, n := e` of the further arguments of a call -/
+def argToks (more : List (Item × Item × Item × S)) : List Item := more.flatMap fun m => m.1 :: m.2.1 :: m.2.2.1 :: m.2.2.2.toks
+/-- the tree of a named input -/
+def namedSx (n : Item) (e : S) : Sx := .t "NamedInput" [.n "NamedInput" [("name", .a (txt n)), ("expr", e.sx)]]
+def argsNeed (more : List (Item × Item × Item × S)) : Nat := (more.map fun m => m.2.2.2.need + 1).sum
+
 def groupSx (v : Nat) (more : List (Item × Item × Nat)) (body : List Sx) : Sx :=
   .n "CaseStatementGroup" [("selectors", .l (selSx v :: more.map fun m => selSx m.2.2)), ("statements", .l body)]
 
@@ -169,6 +177,7 @@ mutual
         kFor :: ctl :: asg :: (frm.toks ++ kTo :: (to.toks ++ kBy :: (st.toks ++ kDo :: (body.toks ++ [kEnd]))))
     | .caseS kCase kOf sel groups kEnd => kCase :: (sel.toks ++ kOf :: (groups.toks ++ [kEnd]))
     | .caseElse kCase kOf sel groups kElse els kEnd => kCase :: (sel.toks ++ kOf :: (groups.toks ++ kElse :: (els.toks ++ [kEnd])))
+    | .callS name lp n1 a1 e1 more rp => name :: lp :: n1 :: a1 :: (e1.toks ++ (argToks more ++ [rp]))
     | .exitS k => [k]
     | .returnS k => [k]
   def Stl.toks : Stl → List Item
@@ -199,6 +208,8 @@ mutual
         .t "Case" [.n "Case" [("selector", sel.sx), ("statement_groups", .l groups.sxs), ("else_body", .l [])]]
     | .caseElse _ _ sel groups _ els _ =>
         .t "Case" [.n "Case" [("selector", sel.sx), ("statement_groups", .l groups.sxs), ("else_body", .l els.sxs)]]
+    | .callS name _ n1 _ e1 more _ =>
+        .t "FbCall" [.n "FbCall" [("var_name", .a (txt name)), ("params", .l (namedSx n1 e1 :: more.map fun m => namedSx m.2.1 m.2.2.2))]]
     | .exitS _ => .a "Exit"
     | .returnS _ => .a "Return"
   def Stl.sxs : Stl → List Sx
@@ -231,6 +242,9 @@ mutual
     | .caseS kCase kOf sel groups kEnd => kCase.ty = "Case" ∧ kOf.ty = "Of" ∧ kEnd.ty = "EndCase" ∧ sel.WF 0 ∧ groups.WF
     | .caseElse kCase kOf sel groups kElse els kEnd =>
         kCase.ty = "Case" ∧ kOf.ty = "Of" ∧ kElse.ty = "Else" ∧ kEnd.ty = "EndCase" ∧ sel.WF 0 ∧ groups.WF ∧ els.WF ∧ els.isNil = false
+    | .callS name lp n1 a1 e1 more rp =>
+        name.ty = "Identifier" ∧ lp.ty = "LeftParen" ∧ rp.ty = "RightParen" ∧ n1.ty = "Identifier" ∧ a1.ty = "Assignment" ∧ e1.WF 0 ∧
+        ∀ m ∈ more, m.1.ty = "Comma" ∧ m.2.1.ty = "Identifier" ∧ m.2.2.1.ty = "Assignment" ∧ m.2.2.2.WF 0
     | .exitS k => k.ty = "Exit"
     | .returnS k => k.ty = "Return"
   def Stl.WF : Stl → Prop
@@ -258,6 +272,7 @@ mutual
     | .forS _ _ _ frm _ to step _ body _ => frm.need + to.need + (match step with | none => 0 | some (_, st) => st.need) + body.need + 8
     | .caseS _ _ sel groups _ => sel.need + groups.need + 8
     | .caseElse _ _ sel groups _ els _ => sel.need + groups.need + els.need + 8
+    | .callS _ _ _ _ e1 more _ => e1.need + argsNeed more + 8
     | .exitS _ => 1
     | .returnS _ => 1
   def Stl.need : Stl → Nat
@@ -367,8 +382,9 @@ theorem statement_none_closer (g : Nat) (K : Item) (R : List Item) (hK : isClose
     rw [orElse_none _ _ _ (fbInvocation_none g K R (closer_ne hK _ (by decide)))]
     exact bind_none _ _ _ (tok_miss _ _ _ (closer_ne hK _ (by decide)))
 
-/-- a plain name in front of `:=` is a named variable -/
-theorem variableP_name (g : Nat) (n a : Item) (R : List Item) (hn : n.ty = "Identifier") (ha : a.ty = "Assignment") :
+/-- a plain name in front of anything that starts no selector is a named variable -/
+theorem variableP_name' (g : Nat) (n a : Item) (R : List Item) (hn : n.ty = "Identifier")
+    (ha : a.ty ≠ "Period" ∧ a.ty ≠ "LeftBracket" ∧ isTrivia a.ty = false) :
     variableP (g + 2) (n :: a :: R) =
       some (.t "Symbolic" [.t "Named" [.n "NamedVariable" [("name", .a (txt n))]]], a :: R) := by
   rw [variableP]
@@ -377,17 +393,17 @@ theorem variableP_name (g : Nat) (n a : Item) (R : List Item) (hn : n.ty = "Iden
     rw [directVariable]
     exact bind_none _ _ _ (tok_miss _ _ _ (by rw [hn]; decide))
   rw [orElse_none _ _ _ hd]
-  have hws : ws (a :: R) = some ((), a :: R) := ws_cons _ _ (by rw [ha]; decide)
+  have hws : ws (a :: R) = some ((), a :: R) := ws_cons _ _ ha.2.2
   have hsel : ((do ws; let _ ← tok "Period"; ws; let id ← identifier; pure (Sum.inl id))
                 <|> (do ws; let s ← subscriptList g; pure (Sum.inr s)) : P (Sum Sx (List Sx))) (a :: R) = none := by
     have h1 : (do ws; let _ ← tok "Period"; ws; let id ← identifier; pure (Sum.inl id) : P (Sum Sx (List Sx))) (a :: R) = none := by
       rw [bind_some _ _ _ _ _ hws]
-      exact bind_none _ _ _ (tok_miss _ _ _ (by rw [ha]; decide))
+      exact bind_none _ _ _ (tok_miss _ _ _ ha.1)
     rw [orElse_none _ _ _ h1, bind_some _ _ _ _ _ hws]
     apply bind_none
     cases g with
     | zero => rw [subscriptList]; rfl
-    | succ g => rw [subscriptList]; exact bind_none _ _ _ (tok_miss _ _ _ (by rw [ha]; decide))
+    | succ g => rw [subscriptList]; exact bind_none _ _ _ (tok_miss _ _ _ ha.2.1)
   have hsym : symbolicVariable (g + 1) (n :: a :: R) =
       some (.t "Named" [.n "NamedVariable" [("name", .a (txt n))]], a :: R) := by
     rw [symbolicVariable, bind_some _ _ _ _ _ (identifier_hit _ _ hn)]
@@ -399,6 +415,12 @@ theorem variableP_name (g : Nat) (n a : Item) (R : List Item) (hn : n.ty = "Iden
     rfl
   rw [bind_some _ _ _ _ _ hsym]
   rfl
+
+/-- a plain name in front of `:=` is a named variable -/
+theorem variableP_name (g : Nat) (n a : Item) (R : List Item) (hn : n.ty = "Identifier") (ha : a.ty = "Assignment") :
+    variableP (g + 2) (n :: a :: R) =
+      some (.t "Symbolic" [.t "Named" [.n "NamedVariable" [("name", .a (txt n))]]], a :: R) :=
+  variableP_name' g n a R hn (by rw [ha]; exact ⟨by decide, by decide, by decide⟩)
 
 theorem statement_assign (g : Nat) (n a : Item) (etoks rest : List Item) (e : Sx)
     (hn : n.ty = "Identifier") (ha : a.ty = "Assignment") (hws : ws etoks = some ((), etoks))
@@ -469,6 +491,7 @@ theorem St.head (s : St) (h : s.WF) : ∃ t ts, s.toks = t :: ts ∧ isStart t.t
     | some p => obtain ⟨kBy, st⟩ := p; exact ⟨kFor, _, rfl, by rw [h.1]; decide⟩
   | caseS kCase kOf sel groups kEnd => exact ⟨kCase, _, rfl, by rw [h.1]; decide⟩
   | caseElse kCase kOf sel groups kElse els kEnd => exact ⟨kCase, _, rfl, by rw [h.1]; decide⟩
+  | callS name lp n1 a1 e1 more rp => exact ⟨name, _, rfl, by rw [h.1]; decide⟩
   | exitS k => exact ⟨k, _, rfl, by rw [show k.ty = "Exit" from h]; decide⟩
   | returnS k => exact ⟨k, _, rfl, by rw [show k.ty = "Return" from h]; decide⟩
 
@@ -803,6 +826,123 @@ theorem caseElse_reads (g : Nat) (kCase kOf kElse kEnd : Item) (stoks T etoks re
     bind_some _ _ _ _ _ (opt_some _ _ _ _ helse),
     bind_some _ _ _ _ _ hwsE, bind_some _ _ _ _ _ (tok_hit _ _ _ hEnd)]
   rfl
+
+/-! ### function block invocation with named inputs -/
+
+theorem ends_arg (t : Item) (ts : List Item) (h : t.ty = "Comma" ∨ t.ty = "RightParen") :
+    ∀ u us, t :: ts = u :: us → okNext u.ty = true ∧ ∀ row ∈ Gen.prec, u.ty ≠ row.token := by
+  intro u us hu
+  cases hu
+  rcases h with h | h <;> rw [h] <;> exact ⟨by decide, by decide⟩
+
+/-- `n := e` as an argument: not an output assignment, a named input -/
+theorem paramAssignment_named (g : Nat) (n a : Item) (e : S) (rest : List Item) (hn : n.ty = "Identifier") (ha : a.ty = "Assignment")
+    (he : e.WF 0) (hrest : ∀ u us, rest = u :: us → okNext u.ty = true ∧ ∀ row ∈ Gen.prec, u.ty ≠ row.token)
+    (hF : e.need + 1 ≤ g) :
+    paramAssignment (g + 1) (n :: a :: (e.toks ++ rest)) = some (namedSx n e, rest) := by
+  rw [paramAssignment]
+  have hwsn : ws (n :: a :: (e.toks ++ rest)) = some ((), n :: a :: (e.toks ++ rest)) := ws_cons _ _ (by rw [hn]; decide)
+  have hwsa : ws (a :: (e.toks ++ rest)) = some ((), a :: (e.toks ++ rest)) := ws_cons _ _ (by rw [ha]; decide)
+  have hvn : variableName (n :: a :: (e.toks ++ rest)) = some (.a (txt n), a :: (e.toks ++ rest)) := identifier_hit _ _ hn
+  have h1 : (do let neg ← opt (tok "Not"); ws
+                let src ← variableName; ws; let _ ← tok "RightArrow"; ws
+                let tgt ← variableP g
+                pure (Sx.t "Output" [.n "Output" [("not", .bool neg.isSome), ("src", src), ("tgt", tgt)]]) : P Sx)
+      (n :: a :: (e.toks ++ rest)) = none := by
+    rw [bind_some _ _ _ _ _ (opt_none _ _ (tok_miss _ _ _ (by rw [hn]; decide))), bind_some _ _ _ _ _ hwsn,
+      bind_some _ _ _ _ _ hvn, bind_some _ _ _ _ _ hwsa]
+    exact bind_none _ _ _ (tok_miss _ _ _ (by rw [ha]; decide))
+  have hname : (do let n ← variableName; ws; let _ ← tok "Assignment"; pure n : P Sx) (n :: a :: (e.toks ++ rest))
+      = some (.a (txt n), e.toks ++ rest) := by
+    rw [bind_some _ _ _ _ _ hvn, bind_some _ _ _ _ _ hwsa, bind_some _ _ _ _ _ (tok_hit _ _ _ ha)]
+    rfl
+  rw [orElse_none _ _ _ h1, bind_some _ _ _ _ _ (opt_some _ _ _ _ hname), bind_some _ _ _ _ _ (ws_toks e 0 _ he),
+    bind_some _ _ _ _ _ (expression_reads e rest g he hrest hF)]
+  rfl
+
+def argSegs (more : List (Item × Item × Item × S)) : List (Sx × List Item) :=
+  more.map fun m => (namedSx m.2.1 m.2.2.2, m.1 :: m.2.1 :: m.2.2.1 :: m.2.2.2.toks)
+
+theorem flat_argSegs (more : List (Item × Item × Item × S)) : flat (argSegs more) = argToks more := by
+  simp [flat, argSegs, argToks, List.flatMap_map]
+
+theorem map_argSegs (more : List (Item × Item × Item × S)) : (argSegs more).map (·.1) = more.map fun m => namedSx m.2.1 m.2.2.2 := by
+  simp [argSegs]
+
+def ArgsWF (more : List (Item × Item × Item × S)) : Prop :=
+  ∀ m ∈ more, m.1.ty = "Comma" ∧ m.2.1.ty = "Identifier" ∧ m.2.2.1.ty = "Assignment" ∧ m.2.2.2.WF 0
+
+theorem arg_head (more : List (Item × Item × Item × S)) (h : ArgsWF more) (rp : Item) (R : List Item) (hr : rp.ty = "RightParen") :
+    ∃ t T, (t.ty = "Comma" ∨ t.ty = "RightParen") ∧ flat (argSegs more) ++ rp :: R = t :: T := by
+  cases more with
+  | nil => exact ⟨rp, R, Or.inr hr, rfl⟩
+  | cons m more =>
+    exact ⟨m.1, m.2.1 :: m.2.2.1 :: (m.2.2.2.toks ++ (flat (argSegs more) ++ rp :: R)), Or.inl (h m (List.mem_cons_self ..)).1,
+      by simp [flat, argSegs]⟩
+
+theorem argsNeed_cons (m : Item × Item × Item × S) (more : List (Item × Item × Item × S)) :
+    argsNeed (m :: more) = m.2.2.2.need + 1 + argsNeed more := by simp [argsNeed]
+
+theorem arg_chain (g : Nat) : ∀ (more : List (Item × Item × Item × S)), ArgsWF more → argsNeed more ≤ g → ∀ (rp : Item) (R : List Item),
+    rp.ty = "RightParen" →
+    Chain (do let _ ← (do ws; comma; ws : P Unit); paramAssignment (g + 1) : P Sx) (argSegs more) (rp :: R) := by
+  intro more
+  induction more with
+  | nil =>
+    intro _ _ rp R hr
+    show (do let _ ← (do ws; comma; ws : P Unit); paramAssignment (g + 1) : P Sx) (rp :: R) = none
+    apply bind_none
+    rw [bind_some _ _ _ _ _ (ws_cons rp _ (by rw [hr]; decide))]
+    exact bind_none _ _ _ (comma_miss _ _ (by rw [hr]; decide))
+  | cons m more ih =>
+    intro h hg rp R hr
+    obtain ⟨hc, hn, ha, he⟩ := h m (List.mem_cons_self ..)
+    have hmore : ArgsWF more := fun x hx => h x (List.mem_cons_of_mem _ hx)
+    rw [argsNeed_cons] at hg
+    refine ⟨by simp, ?_, ih hmore (by omega) rp R hr⟩
+    obtain ⟨t, T, ht, heq⟩ := arg_head more hmore rp R hr
+    show (do let _ ← (do ws; comma; ws : P Unit); paramAssignment (g + 1) : P Sx)
+        ((m.1 :: m.2.1 :: m.2.2.1 :: m.2.2.2.toks) ++ (flat (argSegs more) ++ rp :: R))
+      = some (namedSx m.2.1 m.2.2.2, flat (argSegs more) ++ rp :: R)
+    have hsep : (do ws; comma; ws : P Unit) ((m.1 :: m.2.1 :: m.2.2.1 :: m.2.2.2.toks) ++ (flat (argSegs more) ++ rp :: R))
+        = some ((), m.2.1 :: m.2.2.1 :: (m.2.2.2.toks ++ (flat (argSegs more) ++ rp :: R))) := by
+      show (do ws; comma; ws : P Unit) (m.1 :: m.2.1 :: m.2.2.1 :: (m.2.2.2.toks ++ (flat (argSegs more) ++ rp :: R))) = _
+      rw [bind_some _ _ _ _ _ (ws_cons m.1 _ (by rw [hc]; decide)), bind_some _ _ _ _ _ (comma_hit _ _ hc)]
+      exact ws_cons _ _ (by rw [hn]; decide)
+    rw [bind_some _ _ _ _ _ hsep]
+    exact paramAssignment_named g m.2.1 m.2.2.1 m.2.2.2 _ hn ha he (by rw [heq]; exact ends_arg t T ht) (by omega)
+
+/-- `name(n1 := e1 {, n := e})` -/
+theorem fbInvocation_reads (g : Nat) (name lp n1 a1 rp : Item) (e1 : S) (more : List (Item × Item × Item × S)) (R : List Item)
+    (hname : name.ty = "Identifier") (hlp : lp.ty = "LeftParen") (hrp : rp.ty = "RightParen")
+    (hn1 : n1.ty = "Identifier") (ha1 : a1.ty = "Assignment") (he1 : e1.WF 0) (hmore : ArgsWF more)
+    (hg : e1.need + 1 + argsNeed more ≤ g) :
+    fbInvocation (g + 2) (name :: lp :: n1 :: a1 :: (e1.toks ++ (argToks more ++ rp :: R))) =
+      some (.t "FbCall" [.n "FbCall" [("var_name", .a (txt name)),
+        ("params", .l (namedSx n1 e1 :: more.map fun m => namedSx m.2.1 m.2.2.2))]], R) := by
+  rw [fbInvocation]
+  obtain ⟨t, T, ht, heq⟩ := arg_head more hmore rp R hrp
+  have hfirst : paramAssignment (g + 1) (n1 :: a1 :: (e1.toks ++ (flat (argSegs more) ++ rp :: R)))
+      = some (namedSx n1 e1, flat (argSegs more) ++ rp :: R) :=
+    paramAssignment_named g n1 a1 e1 _ hn1 ha1 he1 (by rw [heq]; exact ends_arg t T ht) (by omega)
+  have hmany := many_chain _ (argSegs more) (rp :: R) (arg_chain g more hmore (by omega) rp R hrp)
+    (by intro x hx; simp only [argSegs, List.mem_map] at hx; obtain ⟨m, _, rfl⟩ := hx; simp)
+  have hsep : sepBy (paramAssignment (g + 1)) (do ws; comma; ws : P Unit) (n1 :: a1 :: (e1.toks ++ (argToks more ++ rp :: R)))
+      = some (namedSx n1 e1 :: more.map (fun m => namedSx m.2.1 m.2.2.2), rp :: R) := by
+    rw [← flat_argSegs]
+    simp only [sepBy, hfirst, hmany, map_argSegs]
+  rw [bind_some _ _ _ _ _ (identifier_hit _ _ hname), bind_some _ _ _ _ _ (ws_cons lp _ (by rw [hlp]; decide)),
+    bind_some _ _ _ _ _ (tok_hit _ _ _ hlp), bind_some _ _ _ _ _ (ws_cons n1 _ (by rw [hn1]; decide)),
+    bind_some _ _ _ _ _ hsep, bind_some _ _ _ _ _ (ws_cons rp _ (by rw [hrp]; decide)), bind_some _ _ _ _ _ (tok_hit _ _ _ hrp)]
+  rfl
+
+/-- a name in front of `(` starts no assignment -/
+theorem assignAlt_none_call (g : Nat) (name lp : Item) (R : List Item) (hname : name.ty = "Identifier") (hlp : lp.ty = "LeftParen") :
+    (do let v ← variableP (g + 2); ws; let _ ← tok "Assignment"; ws; let e ← expression (g + 2)
+        pure (Sx.t "Assignment" [.n "Assignment" [("target", v), ("value", e)]]) : P Sx) (name :: lp :: R) = none := by
+  rw [bind_some _ _ _ _ _ (variableP_name' g name lp R hname (by rw [hlp]; exact ⟨by decide, by decide, by decide⟩)),
+    bind_some _ _ _ _ _ (ws_cons lp _ (by rw [hlp]; decide))]
+  exact bind_none _ _ _ (tok_miss _ _ _ (by rw [hlp]; decide))
 
 /-- `WHILE c DO body END_WHILE` -/
 theorem whileStatement_reads (g : Nat) (kW kDo kEnd : Item) (ctoks btoks rest : List Item) (c : Sx) (body : List Sx)
@@ -1191,6 +1331,25 @@ mutual
         apply orElse_some
         rw [hfor]
         rfl
+    | .callS name lp n1 a1 e1 more rp, hwf, F, semi, R, hsemi, hF => by
+      obtain ⟨hname, hlp, hrp, hn1, ha1, he1, hmore⟩ := hwf
+      simp only [St.need] at hF
+      obtain ⟨g, rfl⟩ : ∃ g, F = g + 3 := ⟨F - 3, by omega⟩
+      have hcall := fbInvocation_reads g name lp n1 a1 rp e1 more (semi :: R) hname hlp hrp hn1 ha1 he1 hmore (by omega)
+      have htoks : (St.callS name lp n1 a1 e1 more rp).toks ++ semi :: R
+          = name :: lp :: n1 :: a1 :: (e1.toks ++ (argToks more ++ rp :: semi :: R)) := by
+        simp [St.toks, List.append_assoc]
+      rw [htoks, statement]
+      rw [orElse_none _ _ _ (assignAlt_none_call g name lp _ hname hlp)]
+      rw [orElse_none _ _ _ (ifStatement_none _ name _ (by rw [hname]; decide))]
+      rw [orElse_none _ _ _ (caseStatement_none _ name _ (by rw [hname]; decide))]
+      rw [orElse_none _ _ _ (forStatement_none _ name _ (by rw [hname]; decide))]
+      rw [orElse_none _ _ _ (whileStatement_none _ name _ (by rw [hname]; decide))]
+      rw [orElse_none _ _ _ (repeatStatement_none _ name _ (by rw [hname]; decide))]
+      rw [orElse_none _ _ _ (bind_none _ _ _ (tok_miss _ _ _ (by rw [hname]; decide)))]
+      apply orElse_some
+      rw [hcall]
+      rfl
     | .exitS k, hwf, F, semi, R, hsemi, hF => by
       have hk : k.ty = "Exit" := hwf
       obtain ⟨g, rfl⟩ : ∃ g, F = g + 1 := ⟨F - 1, by simp only [St.need] at hF; omega⟩
@@ -1306,6 +1465,15 @@ end
 
 /-! ### the fuel of the driver is enough -/
 
+theorem argsNeed_le (more : List (Item × Item × Item × S)) : argsNeed more ≤ 5 * (argToks more).length := by
+  induction more with
+  | nil => simp [argsNeed, argToks]
+  | cons m more ih =>
+    have := S.need_le m.2.2.2
+    rw [argsNeed_cons]
+    simp only [argToks, List.flatMap_cons, List.length_append, List.length_cons] at ih ⊢
+    omega
+
 mutual
   theorem st_need_le : (s : St) → s.need ≤ 5 * s.toks.length
     | .assign n a e => by have := S.need_le e; simp only [St.need, St.toks, List.length_cons]; omega
@@ -1332,6 +1500,9 @@ mutual
       simp only [St.need, St.toks, List.length_cons, List.length_append, List.length_nil]; omega
     | .caseElse kCase kOf sel groups kElse els kEnd => by
       have := S.need_le sel; have := groups_need_le groups; have := stl_need_le els
+      simp only [St.need, St.toks, List.length_cons, List.length_append, List.length_nil]; omega
+    | .callS name lp n1 a1 e1 more rp => by
+      have := S.need_le e1; have := argsNeed_le more
       simp only [St.need, St.toks, List.length_cons, List.length_append, List.length_nil]; omega
     | .exitS k => by simp [St.need, St.toks]
     | .returnS k => by simp [St.need, St.toks]
